@@ -21,10 +21,10 @@ type Value struct {
 }
 
 const (
-	ShCell  = iota // C.<T>[Base]
-	ShField        // H.<S>.<f>[Base]
-	ShElem         // M.<T>[Base][Idx]
-	ShGlobal       // G.<name>
+	ShCell   = iota // C.<T>[Base]
+	ShField         // H.<S>.<f>[Base]
+	ShElem          // M.<T>[Base][Idx]
+	ShGlobal        // G.<name>
 )
 
 type Shape struct {
